@@ -1,2 +1,114 @@
--- line-protocol model driver for C01 (stub)
-def main : IO Unit := IO.println "stub C01"
+/- Line-protocol model driver for C01: reads heap dumps written by harness/C01/gch.c at janet_verif_gc_midpoint, runs the
+model's mark phase (JANET_RECURSION_GUARD and two tiny depth limits that force the spill/drain path) and sweep, and
+compares with the collector's mark bits and the block lists after the real sweep. -/
+import JanetModel.GC.Model
+open JanetModel.GC
+
+structure DS where
+  objs : Array Obj := #[]
+  marked : Array Bool := #[]
+  disabled : Array Bool := #[]
+  opq : Bool := false
+  roots : List Edge := []
+  after : List Nat := []
+  hasAfter : Bool := false
+  coll : String := "?"
+  bad : Nat := 0
+
+def parseRef (s : String) : Val := match s.toNat? with | some n => .ref n | none => .imm
+
+def parseObj (kind : Nat) (toks : List String) : Obj :=
+  let edges : List Edge := toks.filterMap fun t =>
+    if t.startsWith "v" then (t.drop 1).toString.toNat?.map (fun n => ⟨true, n⟩)
+    else if t.startsWith "p" then (t.drop 1).toString.toNat?.map (fun n => ⟨false, n⟩)
+    else none
+  let slots : List (Val × Val) := toks.filterMap fun t =>
+    if t.startsWith "s:" then
+      match t.splitOn ":" with
+      | [_, k, v] => some (parseRef k, parseRef v)
+      | _ => none
+    else none
+  let proto : Option Id := (edges.find? (fun e => !e.dec)).map (·.tgt)
+  open JanetModel.Gen.GC in
+  if kind == memArrayWeak then Obj.array true (slots.map (·.1))
+  else if kind == memTableWeakK then Obj.table true false slots proto
+  else if kind == memTableWeakV then Obj.table false true slots proto
+  else if kind == memTableWeakKV then Obj.table true true slots proto
+  else { kind, strong := edges }
+
+def check (st : DS) : String := Id.run do
+  let objs := st.objs
+  let n := objs.size
+  let h : Heap := { size := n, obj := fun i => objs[i]?, roots := st.roots }
+  let m := mark JanetModel.Gen.GC.recursionGuard h
+  let m1 := mark 1 h
+  let m3 := mark 3 h
+  let mut missing := 0     -- model marks it, collector did not  (a reachable block the collector would free)
+  let mut extra := 0       -- collector marked it, model did not
+  let mut dep := 0         -- model's result depends on the depth limit (contradicts mark_eq_reachable: driver bug)
+  let mut nm := 0
+  let mut first := ""
+  for i in [0:n] do
+    let a := m.marked.contains i
+    let b := st.marked.getD i false
+    if a then nm := nm + 1
+    if a && !b then
+      missing := missing + 1
+      if first == "" then first := s!"missing:{i}:kind{(objs.getD i {kind := 0, strong := []}).kind}"
+    if b && !a && !st.opq then
+      extra := extra + 1
+      if first == "" then first := s!"extra:{i}"
+    if m1.marked.contains i != a || m3.marked.contains i != a then dep := dep + 1
+  -- sweep
+  let h' := sweep m.marked h
+  let mut sweepDiff := 0
+  let mut freed := 0
+  let mut cleared := 0
+  if st.hasAfter then
+    let afterSet : Std.HashSet Nat := st.after.foldl (fun s i => s.insert i) ∅
+    for i in [0:n] do
+      let surv := (h'.get i).isSome
+      if !surv then freed := freed + 1
+      if st.disabled.getD i false then continue
+      if surv != afterSet.contains i then
+        sweepDiff := sweepDiff + 1
+        if first == "" then first := s!"sweep:{i}"
+      match h.get i, h'.get i with
+      | some o, some o' => cleared := cleared + (o.entries.length - o'.entries.length)
+      | _, _ => pure ()
+  let stuck := m.stuck || m1.stuck || m3.stuck || !m.spill.isEmpty
+  let ok := missing == 0 && extra == 0 && dep == 0 && sweepDiff == 0 && !stuck && st.bad == 0
+  return s!"result ok={if ok then 1 else 0} collection={st.coll} nodes={n} modelmarked={nm} missing={missing} extra={extra} depthdep={dep} sweepdiff={sweepDiff} modelfreed={freed} weakcleared={cleared} stuck={if stuck then 1 else 0} parsebad={st.bad} opaque={if st.opq then 1 else 0} first={if first == "" then "-" else first}"
+
+partial def loop (inp out : IO.FS.Stream) (st : DS) : IO Unit := do
+  let line ← inp.getLine
+  if line.isEmpty then
+    out.flush
+    return ()
+  let toks := (line.trimAscii.toString.splitOn " ").filter (· ≠ "")
+  match toks with
+  | "heap" :: _ :: c :: _ => loop inp out { coll := c }
+  | "o" :: id :: kind :: flags :: rest =>
+    let k := kind.toNat?.getD 0
+    let bad := if id.toNat? == some st.objs.size then st.bad else st.bad + 1
+    let fl := flags.toList
+    loop inp out { st with
+      objs := st.objs.push (parseObj k rest),
+      marked := st.marked.push (fl.contains 'm'),
+      disabled := st.disabled.push (fl.contains 'd'),
+      opq := st.opq || (fl.contains 'o' ),
+      bad := bad }
+  | "roots" :: rest =>
+    let rs : List Edge := rest.filterMap fun t =>
+      if t.startsWith "v" then (t.drop 1).toString.toNat?.map (fun n => ⟨true, n⟩)
+      else if t.startsWith "p" then (t.drop 1).toString.toNat?.map (fun n => ⟨false, n⟩)
+      else none
+    loop inp out { st with roots := rs }
+  | "after" :: rest => loop inp out { st with after := rest.filterMap (·.toNat?), hasAfter := !rest.isEmpty }
+  | "check" :: _ =>
+    out.putStrLn (check st)
+    loop inp out {}
+  | _ => loop inp out st
+
+def main : IO Unit := do
+  loop (← IO.getStdin) (← IO.getStdout) {}
